@@ -42,6 +42,9 @@ func main() {
 	if flag.NArg() > 0 && flag.Arg(0) == "check" {
 		os.Exit(runCheck(flag.Args()[1:]))
 	}
+	if flag.NArg() > 0 && flag.Arg(0) == "replay" {
+		os.Exit(runReplayCmd(flag.Args()[1:]))
+	}
 	ov, err := overlayFrom(*ovroot, *repo)
 	if err != nil {
 		fmt.Println(err)
@@ -78,5 +81,3 @@ func main() {
 	sb, _ := json.Marshal(in.Stats)
 	fmt.Println(string(sb))
 }
-
-func runCheck(args []string) int { return 2 }
